@@ -949,6 +949,24 @@ fn run_websocket_server(
         .unwrap()
 }
 
+/// verification hook: the node's HTTP / websocket server (block and lite-block routes) on its own,
+/// without the rest of the network controller
+#[cfg(saito_verif)]
+pub fn verif_run_server(
+    sender: Sender<IoEvent>,
+    port: u16,
+    host: String,
+    public_key: SaitoPublicKey,
+    peers_lock: Arc<RwLock<PeerCollection>>,
+) -> JoinHandle<()> {
+    let controller = Arc::new(RwLock::new(NetworkController {
+        sockets: Arc::new(Mutex::new(HashMap::new())),
+        sender_to_saito_controller: sender.clone(),
+        currently_queried_urls: Arc::new(Default::default()),
+    }));
+    run_websocket_server(sender, controller, port, host, public_key, peers_lock)
+}
+
 #[cfg(test)]
 mod tests {
     use futures::SinkExt;
